@@ -22,7 +22,7 @@ def K(rnd, lo=0.2, hi=3.0):
     return gen.nice(rnd, lo, hi)
 
 
-def template(rnd, name):
+def template(rnd, name, variant=None):
     """returns (spec, counters_ok, sims)"""
     ma = lambda reac, prod, k: {"type": "massaction", "reactants": reac, "products": prod, "fields": {"k": k}}
     sims = ["ssa", "safe", "psm"]
@@ -82,9 +82,14 @@ def template(rnd, name):
         sp = {"species": ["R", "P", "A", "S"], "x0": {"R": rnd.randint(2, 6), "P": 0, "A": rnd.randint(1, 4), "S": rnd.randint(0, 2)}, "reactions": rx}
         finite = True
     elif name == "general":
-        form = rnd.randrange(3)
+        form = rnd.randrange(4)
+        if variant is not None:
+            form = variant % 4
         k = ["num", K(rnd, 0.3, 2)]
-        if form == 0:
+        if form == 3:
+            # an even power of a difference that is negative in part of the state space (the rate itself stays >= 0)
+            ast = ["*", ["*", ["num", K(rnd, 0.05, 0.4)], ["sp", "R"]], ["^", ["-", ["sp", "R"], ["num", 2.5]], ["num", 2]]]
+        elif form == 0:
             ast = ["/", ["*", k, ["sp", "R"]], ["+", ["num", 1], ["sp", "P"]]]
         elif form == 1:
             ast = ["*", ["*", k, ["sp", "R"]], ["exp", ["neg", ["*", ["num", 0.3], ["sp", "P"]]]]]
@@ -163,7 +168,7 @@ def generate(tier, seed):
     while len(cases) < nnet:
         name = TEMPLATES[i % len(TEMPLATES)]
         i += 1
-        sp, finite, sims, cap = template(rnd, name)
+        sp, finite, sims, cap = template(rnd, name, variant=(3 + i // len(TEMPLATES)))     # the general template cycles through its forms, the power form first
         counters = finite and rnd.random() < 0.6
         if counters:
             gen.add_counters(sp)
